@@ -400,6 +400,106 @@ theorem C02_search_lines_substring (data name : Bytes) (ctx : Nat) (pat : Bytes)
     exact this
 
 
+/-- what a regexp engine's `FindAllIndex` returns, as content candidates: increasing offsets, no overlap, in bounds -/
+structure EngineMatches (data : Bytes) (ms : List Cand) : Prop where
+  content : ∀ c ∈ ms, c.fileName = false
+  ordered : ms.Pairwise (fun a b => a.off + a.sz ≤ b.off ∧ a.off < b.off)
+  inBounds : ∀ c ∈ ms, c.off + c.sz ≤ data.length
+
+theorem EngineMatches.sorted {data : Bytes} {ms : List Cand} (h : EngineMatches data ms) : ms.Pairwise cle := by
+  refine h.ordered.imp_of_mem ?_
+  intro a b ha hb hab
+  rw [cle_iff]; right
+  exact ⟨by rw [h.content a ha, h.content b hb], Or.inl hab.2⟩
+
+theorem EngineMatches.gather {data : Bytes} {ms : List Cand} (h : EngineMatches data ms) (name : Bytes) (hne : ms ≠ []) :
+    gatherCands name ms = ms :=
+  gather_engine_matches_id name ms hne h.sorted (h.ordered.imp (fun hab _ => hab.1))
+
+theorem cutAtNL_zero (data : Bytes) (off : Nat) : cutAtNL data off 0 = [] := by
+  unfold cutAtNL
+  cases h : data.drop off <;> simp [cutAtNL.go]
+
+theorem expected_cut (data : Bytes) (l : List Cand) :
+    List.flatMap (fun o => cutAtNL data o.1 o.2) (List.filter (fun m => decide (m.2 > 0)) (List.map (fun c => (c.off, c.sz)) l)) =
+      List.flatMap (fun c => cutAtNL data c.off c.sz) l := by
+  induction l with
+  | nil => rfl
+  | cons d u ihu =>
+    simp only [List.map_cons, List.filter_cons, List.flatMap_cons]
+    by_cases hz : d.sz > 0
+    · simp only [hz, decide_true, if_true, List.flatMap_cons, ihu]
+    · have h0 : d.sz = 0 := by omega
+      simp [h0, cutAtNL_zero, ihu]
+
+/-- **C02 end to end, single regular expression** (both modes): when the atom's candidates are the engine's matches,
+    the reported ranges cover exactly the bytes of the engine's non-empty matches — newline bytes excluded in line mode:
+    the reported non-empty content ranges *are* the engine's non-empty matches (cut at newlines in line mode). -/
+theorem C02_search_regexp (data name : Bytes) (ctx : Nat) (ms : List Cand) (h : EngineMatches data ms) (hne : ms ≠ []) :
+    checkP data name false (.regexp (ms.map fun c => (c.off, c.sz))) ms
+      (rangesOfChunks (reportChunks data name ctx ms)) = true ∧
+    ∃ lms, reportLines data name ctx ms = some lms ∧
+      checkP data name true (.regexp (ms.map fun c => (c.off, c.sz))) ms (rangesOfLines lms) = true := by
+  have hb : ∀ c ∈ ms, c.off + c.sz ≤ (if c.fileName then name.length else data.length) := by
+    intro c hc; simp only [h.content c hc, Bool.false_eq_true, if_false]; exact h.inBounds c hc
+  have hg := h.gather name hne
+  have hcontent : ms.filter (fun c => !c.fileName) = ms := by
+    rw [List.filter_eq_self]; intro c hc; simp [h.content c hc]
+  constructor
+  · rw [checkP_split, C02_search_chunks data name ctx ms hb, Bool.true_and]
+    obtain ⟨sel, h1, _, _, _, h5⟩ := reportChunks_flat data name ctx ms hb
+    rw [h1]
+    have : (candsAsRanges sel).filter (fun r => !r.fileName) = candsAsRanges (sel.filter (fun c => !c.fileName)) := by
+      simp only [candsAsRanges, List.filter_map]; rfl
+    rw [this, h5, hg, hcontent]
+    simp only [expectedSingle, Bool.false_eq_true, if_false, beq_iff_eq, candsAsRanges, List.filter_map, List.map_map]
+    rfl
+  · obtain ⟨lms, h1, h2⟩ := C02_search_lines data name ctx ms hb
+    refine ⟨lms, h1, ?_⟩
+    rw [checkP_split, h2, Bool.true_and]
+    obtain ⟨lms', sel, h1', h3, h4⟩ := reportLines_flat data name ctx ms hb
+    have hlms : lms' = lms := by rw [h1] at h1'; exact (Option.some.inj h1').symm
+    subst hlms
+    rw [hg, hcontent] at h4
+    rcases h4 with ⟨h5, _, _⟩ | ⟨rfl, hfalse⟩
+    · exact absurd h5 hne
+    · rw [h3]
+      have e1 : (candsAsRanges (breakMatchesOnNewlines data ms)).filter (fun r => !r.fileName) =
+          candsAsRanges (breakMatchesOnNewlines data ms) := by
+        rw [List.filter_eq_self]
+        intro r hr
+        simp only [candsAsRanges, List.mem_map] at hr
+        obtain ⟨c, hcm, rfl⟩ := hr
+        simp [hfalse c hcm]
+      have pre := linePre_break data ms (h.ordered.imp (fun hab => hab.1)) h.inBounds
+      have e2 : (candsAsRanges (breakMatchesOnNewlines data ms)).filter (fun r => decide (r.len > 0)) =
+          candsAsRanges (breakMatchesOnNewlines data ms) := by
+        rw [List.filter_eq_self]
+        intro r hr
+        simp only [candsAsRanges, List.mem_map] at hr
+        obtain ⟨c, hcm, rfl⟩ := hr
+        simpa using (pre.2 c hcm).1
+      rw [e1, e2]
+      -- both sides are the cuts of the non-empty matches
+      have hL : (candsAsRanges (breakMatchesOnNewlines data ms)).map (fun r => (r.off, r.len)) =
+          ms.flatMap (fun c => cutAtNL data c.off c.sz) := by
+        simp only [candsAsRanges, breakMatchesOnNewlines, List.map_map, List.map_flatMap]
+        apply flatMap_congr'
+        intro c hc
+        exact breakOnNewlines_eq_cut data c (h.inBounds c hc)
+      have hR : expectedSingle data true ((ms.map fun c => (c.off, c.sz)).filter (fun m => decide (m.2 > 0))) =
+          ms.flatMap (fun c => cutAtNL data c.off c.sz) := by
+        simp only [expectedSingle, if_true]
+        exact expected_cut data ms
+      simp only [beq_iff_eq]
+      rw [hL, hR]
+
+/-- candidates that start at a rune index of the content and span whole runes (what `findOffset` and the rune-wise
+    comparison of `matchContent` produce) start and end on rune boundaries: the hypothesis of C03's column theorem -/
+theorem rune_offset_candidates_aligned (data : Bytes) (r k : Nat) :
+    IsBoundary data (advance r data) ∧ IsBoundary data (advance (r + k) data) :=
+  ⟨isBoundary_advance r data, isBoundary_advance (r + k) data⟩
+
 /-- the source constants the `findOffset` theorems depend on, regenerated from the working tree by the translator on
     every run: `runeOffsetFrequency` is the model's `freq`, and the window `findOffset` reads holds 99 runes of 4 bytes -/
 theorem source_constants_ok :
@@ -412,6 +512,8 @@ theorem findOffset_exact_source (docs : List Bytes) (hclean : ∀ d ∈ docs, Cl
       advance r (docs.getD idx []) :=
   findOffset_exact docs hclean idx r hidx hr _ (by intro n h; cases h; exact source_constants_ok.2)
 
+example := C02_search_regexp [97, 98, 10, 97, 98] [102] 1 [⟨false, 0, 3⟩, ⟨false, 3, 0⟩, ⟨false, 4, 1⟩]
+  ⟨by decide, by decide, by decide⟩ (by decide)
 example := C02_search_chunks [97, 98, 10, 97, 98] [102] 1 [⟨false, 0, 2⟩, ⟨false, 3, 2⟩, ⟨true, 0, 1⟩] (by decide)
 example := C02_search_lines_substring [97, 98, 10, 97, 98] [102] 1 [97, 98] (by decide) [⟨false, 3, 2⟩, ⟨false, 0, 2⟩]
   (by decide) (by decide)
